@@ -297,7 +297,19 @@ func c14DynamicFailures(r *rand.Rand, base *model.Schema, tag string) []struct{ 
 		if base.Type(rootName) == nil && !base.ExplicitSchema {
 			add("late-root-then-invalid", fmt.Sprintf("type %s { m%s: Int }\ninterface IfZz%s { a: Int }\ntype BadImplZz%s implements IfZz%s { b: Int }", rootName, tag, tag, tag, tag))
 			add("late-root-then-invalid", fmt.Sprintf("type %s { m%s: Int }\ntype EmptyZz%s { }", rootName, tag, tag))
+			// ... and with an `extend schema` of the IMPLICIT schema in the same failing document
+			other := map[string]string{"Mutation": "subscription", "Subscription": "mutation"}[rootName]
+			add("late-root-extend-schema-then-invalid", fmt.Sprintf("type %s { m%s: Int }\nextend schema { %s: Query }\ntype EmptyZz%s { }", rootName, tag, other, tag))
 		}
+	}
+	if !base.ExplicitSchema {
+		add("extend-implicit-schema-then-invalid", fmt.Sprintf("type RootX%s { r: Int }\nextend schema { mutation: RootX%s }\ninput BadInZz%s { a: Query }", tag, tag, tag))
+	}
+	// a directive use whose argument value is an input object: extending that input type in a failing document must not
+	// show in the use afterwards (c14Base plants @cfgZz(opt: {}) on Query)
+	if base.Type("OptZz") != nil {
+		add("extend-input-of-directive-argument-then-invalid", fmt.Sprintf("extend input OptZz { b%s: Int = 2 }\ntype EmptyZz%s { }", tag, tag))
+		add("extend-input-of-directive-argument-then-invalid", fmt.Sprintf("extend input OptZz { c%s: [Int] = [1] }\nunion BadUnionZz%s = Int", tag, tag))
 	}
 	return out
 }
@@ -316,6 +328,15 @@ func runC14(c *run.Ctx) {
 	for i := 0; i < n && !c.TooMany(); i++ {
 		r := c.Rand(i)
 		base := gen.TypeSchema(r, gen.TypeOpts{Directives: true, CustomRoots: false, Small: true})
+		if i%2 == 0 {
+			// a directive whose argument is an input object, used with a value that leaves a field to its default
+			base.Types = append(base.Types, &model.TypeDef{Kind: model.Input, Name: "OptZz", Inputs: []*model.ArgDef{{Name: "a", Type: model.Named("Int"), HasDefault: true, Default: int64(1)}, {Name: "s", Type: model.Named("String")}}})
+			base.Dirs = append(base.Dirs, &model.DirDef{Name: "cfgZz", On: []string{"OBJECT"}, Args: []*model.ArgDef{{Name: "opt", Type: model.Named("OptZz")}}})
+			if qt := base.Type(base.Query); qt != nil {
+				qt.Dirs = append(qt.Dirs, model.DirUse{Name: "cfgZz", Args: []model.Arg{{Name: "opt", Value: model.NewObjLit().Set("s", "x")}}})
+			}
+			base.Reindex()
+		}
 		sdl := base.SDL(model.SDLOpts{})
 		var hist []string
 		root, err := loadSDL(sdl)
